@@ -258,11 +258,14 @@ fn stage_base(stage: &str) -> &str {
     stage.trim_end_matches("-other-proof").trim_end_matches("-under-other-key")
 }
 
-fn finding_key(def: &SubjectDef, stage: &str, desc: &str, kind: &str) -> String {
+fn finding_key(def: &SubjectDef, field: &str, stage: &str, desc: &str, kind: &str) -> String {
+    // the plonk key inside a MidnightVK is read and used by the same code as a bare one
+    let inner_vk = matches!(def.kind, SKind::Mvk { .. }) && field.starts_with("vk.");
+    let (entry, object) = if inner_vk { ("VerifyingKey::read", "VerifyingKey") } else { (def.entry(), def.object()) };
     let k = if stage == "decode" {
-        format!("{}:{desc}:{kind}", def.entry())
+        format!("{entry}:{desc}:{kind}")
     } else {
-        format!("{}:{}.{desc}:{kind}", stage_base(stage), def.object())
+        format!("{}:{object}.{desc}:{kind}", stage_base(stage))
     };
     if def.reported_only {
         format!("reported-only:{k}")
@@ -372,14 +375,18 @@ fn main() {
          tag / parameter byte) x all 256 values; every G1/G2 element <- off-curve, non-subgroup, \
          coordinate >= p, wrong flags, all-FF, all-00, identity, other valid point; every proof \
          scalar <- s+r, r, all-FF, s+1; commitment count +-1 / 0 / 2^32-1 with and without matching \
-         bodies; bit flips (all bits of small objects in the thorough tier, element edges + seeded \
-         otherwise); seeded splices; appended bytes; read in the other checked format; bincode length \
+         bodies; bit flips outside the swept header bytes (all bits of small objects in the thorough tier, \
+         element edges + seeded otherwise); seeded splices (overwrite / insert / delete) in the \
+         bodies; appended bytes; read in the other checked format; bincode length \
          prefixes and integer parameters <- {0, 1, 250, 2^16, 2^31, 2^32, 2^32+5, 2^62, 2^63, 2^64-1, \
          u128}; one-instruction IR programs for every operation x type parameter x arities 0..=4 as \
          bincode and JSON; broken JSON documents; seeded random byte / token strings}. Every key \
          that decodes verifies (verify and batch_verify) a valid proof of its own circuit and one of \
          another circuit; every mutated proof is verified under its own key and under the key of \
-         another circuit. The quick tier takes the subset named in coverage.subjects. A case is \
+         another circuit. The quick tier takes the subset named in coverage.subjects (for the key over the wide \
+         architecture only the labelled header bytes x 256). Reported-only proving keys are truncated \
+         at the first 160 and last 64 lengths and every 97th in between. Per-mutation wall cap 20 s \
+         (60 s thorough); a time-out is re-examined alone with five times the cap before it counts. A case is \
          non-trivial when the mutated bytes differ from the valid encoding.",
     );
     cx.assume("a child process under RLIMIT_AS = 4 GiB and a per-mutation wall cap stands for 'terminates without exhausting memory'; an allocation the limit refuses aborts the child and is charged to the mutation");
@@ -412,7 +419,7 @@ fn main() {
     let cap = Duration::from_secs(if thorough { 60 } else { 20 });
 
     // --- sandbox self-test: the parent must tell ok / panic / allocation failure / abort / hang apart
-    match sb.run("selftest", 0, 6, Duration::from_secs(3), 1, false) {
+    match sb.run("selftest", 0, 6, Duration::from_secs(4), 1, false) {
         Ok((r, spawned)) => {
             let got: Vec<String> = r
                 .iter()
@@ -729,7 +736,7 @@ fn classify(rt: &SubjectRt, batch: &Batch, case: &str, res: &[MutRes], spawned: 
         }
     }
     for ((stage, kind, desc), (n, first)) in keyed {
-        let key = finding_key(def, &stage, &desc, &kind);
+        let key = finding_key(def, &batch.muts[first.idx].field, &stage, &desc, &kind);
         let site = if kind == "panic" { format!(" [{}]", vcore::panic_site(&first.msg)) } else { String::new() };
         let what = format!(
             "{} of a mutated {} ({}; {} mutation(s) in this batch, first: #{} {}): {}{}",
